@@ -213,3 +213,39 @@ package forwarder
 //@     assert [count] len(arg1) == 1 && arg1[0].Type == gtp5gnl.BAR_BUFFERING_PACKETS_COUNT && arg1[0].Value == iface(nl.AttrU16(v))
 //@   at call UpdateBAROID:
 //@     assert [oid]   len(arg2) == 2 && arg2[0] == lSeid && arg2[1] == barid && arg3 == attrs
+
+// URR towards the kernel and the periodic-report server (C03).  Oracle: TS 29.244 8.2.64 - Measurement Period is a
+// number of seconds (go-pfcp returns a time.Duration); 8.2.19 - PERIO is bit 1 of octet 5 of Reporting Triggers.
+// A URR is registered for periodic querying exactly when its reporting triggers include PERIO.
+//@ func (g *Gtp5g) CreateURR(lSeid uint64, req *ie.IE) (err error)
+//@   requires g != nil && g.link != nil && g.ps != nil && req != nil
+//@   modifies *
+//@   serves C03 C07
+//@   loop range(ies):
+//@     modifies rptTrig.*
+//@   at call append#3:
+//@     assert [period] len(arg1) == 1 && arg1[0].Type == gtp5gnl.URR_MEASUREMENT_PERIOD && arg1[0].Value == iface(nl.AttrU32(uint32(measurePeriod / 1000000000)))
+//@   at call AddPeriodReportTimer:
+//@     assert [reg]   rptTrig.Flags & 1 != 0 && arg0 == lSeid && arg1 == urrid && arg2 == measurePeriod && measurePeriod > 0
+//@   at call CreateURROID:
+//@     assert [oid]   len(arg2) == 2 && arg2[0] == lSeid && arg2[1] == uint64(urrid) && arg3 == attrs
+//@     assert [perio] (rptTrig.Flags & 1 != 0) == (RuleKey(lSeid, 4, uint64(urrid)) in PERIOREQ) || old(RuleKey(lSeid, 4, uint64(urrid)) in PERIOREQ)
+
+//@ func (g *Gtp5g) UpdateURR(lSeid uint64, req *ie.IE) (usars []report.USAReport, err error)
+//@   requires g != nil && g.link != nil && g.ps != nil && req != nil
+//@   ensures [perio] err == nil && ok(req.URRID()) && ok(req.ReportingTriggers()) && len(val(req.ReportingTriggers())) >= 1 ==>
+//@                     ((val(req.ReportingTriggers())[0] & 1 != 0) == (RuleKey(lSeid, 4, uint64(val(req.URRID()))) in PERIOREQ))
+//@   modifies *
+//@   serves C03 C07
+//@   at call append#3:
+//@     assert [period] len(arg1) == 1 && arg1[0].Type == gtp5gnl.URR_MEASUREMENT_PERIOD && arg1[0].Value == iface(nl.AttrU32(uint32(v / 1000000000)))
+//@   at call UpdateURROID:
+//@     assert [oid]   len(arg2) == 2 && arg2[0] == lSeid && arg2[1] == urrid && arg3 == attrs
+
+//@ func (g *Gtp5g) RemoveURR(lSeid uint64, req *ie.IE) (usars []report.USAReport, err error)
+//@   requires g != nil && g.link != nil && g.ps != nil && req != nil
+//@   ensures [unreg] ok(req.URRID()) ==> !(RuleKey(lSeid, 4, uint64(val(req.URRID()))) in PERIOREQ)
+//@   modifies *
+//@   serves C03 C07
+//@   at call RemoveURROID:
+//@     assert [oid]   len(arg2) == 2 && arg2[0] == lSeid && arg2[1] == uint64(val(req.URRID()))
